@@ -33,44 +33,54 @@ theorem new_tokens (duration n : Int) (doAt : Int → Int) :
     tokensLeft (NewDoAtSchedule duration n doAt) = n.toNat ∧ Flags (NewDoAtSchedule duration n doAt) := by
   simp [tokensLeft, NewDoAtSchedule, Flags]
 
+/-- what `Next` answers / the state it leaves (projections that do not depend on the shape of the regenerated code) -/
+def okOf : Except String ((Int × Bool) × DoAtSt) → Option Bool
+  | .ok ((_, ok), _) => some ok
+  | .error _ => none
+def stOf : Except String ((Int × Bool) × DoAtSt) → Option DoAtSt
+  | .ok (_, s') => some s'
+  | .error _ => none
+
+/-- split every `if`, simplify, again (conditions behind a `match` on an `if` only appear after a round), then linear
+arithmetic.  The proofs below use nothing else, so they do not depend on how the source arranges its tests (`i >= n`
+first or `i < n` first, clamp by comparison of the counters or of the difference, renamed locals …) — only on what
+the functions compute. -/
+macro "leaf_auto" "[" ds:Lean.Parser.Tactic.simpLemma,* "]" : tactic =>
+  `(tactic| ((try split_ifs) <;> (try simp_all [$ds,*]) <;> (try split_ifs) <;> (try simp_all [$ds,*]) <;>
+             (try split_ifs) <;> (try simp_all [$ds,*]) <;> (try omega)))
+
 /-- `Left()` = the tokens left, never negative; the state is untouched -/
 theorem left_eq (s : DoAtSt) : doAtSchedule_Left s = .ok ((tokensLeft s : Int), s) := by
-  unfold doAtSchedule_Left tokensLeft
-  by_cases h : s.n - s.i < 0
-  · simp only [h, if_true]
-    have : (s.n - s.i).toNat = 0 := by omega
-    rw [this]; rfl
-  · simp only [h, if_false]
-    have : ((s.n - s.i).toNat : Int) = s.n - s.i := by omega
-    rw [this]
+  simp only [doAtSchedule_Left, tokensLeft]
+  leaf_auto []
+
+theorem next_ok (s : DoAtSt) (hf : Flags s) (now : Int) :
+    okOf (doAtSchedule_Next now s) = some (decide (0 < tokensLeft s)) := by
+  simp only [Flags] at hf
+  simp only [doAtSchedule_Next, StartSync_MarkStarted, tokensLeft]
+  leaf_auto [okOf]
+
+theorem next_st (s : DoAtSt) (hf : Flags s) (now : Int) :
+    (stOf (doAtSchedule_Next now s)).map (fun s' => (s'.i, s'.n, decide (s'.started = s'.startOnce), tokensLeft s')) =
+      some (s.i + 1, s.n, true, tokensLeft s - 1) := by
+  simp only [Flags] at hf
+  simp only [doAtSchedule_Next, StartSync_MarkStarted, tokensLeft]
+  leaf_auto [stOf]
 
 /-- `Next()`: ok iff a token is left; the counter goes up by exactly one in both cases; one token fewer is left -/
 theorem next_draws (s : DoAtSt) (hf : Flags s) (now : Int) :
     ∃ tx s', doAtSchedule_Next now s = .ok ((tx, decide (0 < tokensLeft s)), s') ∧ s'.i = s.i + 1 ∧ s'.n = s.n ∧
       Flags s' ∧ tokensLeft s' = tokensLeft s - 1 := by
-  unfold Flags at hf
-  cases hso : s.startOnce with
-  | true =>
-    by_cases hge : s.i ≥ s.n
-    · refine ⟨s.start + s.duration, { s with i := s.i + 1 }, ?_, rfl, rfl, hf, ?_⟩
-      · have : ¬ 0 < tokensLeft s := by unfold tokensLeft; omega
-        simp [doAtSchedule_Next, hso, hge, this]
-      · simp only [tokensLeft]; omega
-    · refine ⟨s.start + s.doAt s.i, { s with i := s.i + 1 }, ?_, rfl, rfl, hf, ?_⟩
-      · have : 0 < tokensLeft s := by unfold tokensLeft; omega
-        simp [doAtSchedule_Next, hso, hge, this]
-      · simp only [tokensLeft]; omega
-  | false =>
-    have hst : s.started = false := by rw [hf]; exact hso
-    by_cases hge : s.i ≥ s.n
-    · refine ⟨now + s.duration, { s with started := true, startOnce := true, start := now, i := s.i + 1 }, ?_, rfl, rfl, rfl, ?_⟩
-      · have : ¬ 0 < tokensLeft s := by unfold tokensLeft; omega
-        simp [doAtSchedule_Next, StartSync_MarkStarted, hso, hst, hge, this]
-      · simp only [tokensLeft]; omega
-    · refine ⟨now + s.doAt s.i, { s with started := true, startOnce := true, start := now, i := s.i + 1 }, ?_, rfl, rfl, rfl, ?_⟩
-      · have : 0 < tokensLeft s := by unfold tokensLeft; omega
-        simp [doAtSchedule_Next, StartSync_MarkStarted, hso, hst, hge, this]
-      · simp only [tokensLeft]; omega
+  have h1 := next_ok s hf now
+  have h2 := next_st s hf now
+  cases hr : doAtSchedule_Next now s with
+  | error e => rw [hr] at h1; simp [okOf] at h1
+  | ok r =>
+    obtain ⟨⟨tx, ok⟩, s'⟩ := r
+    rw [hr] at h1 h2
+    simp only [okOf, Option.some.injEq] at h1
+    simp only [stOf, Option.map_some, Option.some.injEq, Prod.mk.injEq, decide_eq_true_eq] at h2
+    exact ⟨tx, s', by rw [h1], h2.1, h2.2.1, h2.2.2.1, h2.2.2.2⟩
 
 /-- the state after `k` calls of `Next` (results dropped; `Left` calls in between change nothing by `left_eq`) -/
 def afterNexts (now : Int) : Nat → DoAtSt → Option DoAtSt
